@@ -83,6 +83,8 @@ def call_builtin(I, name, args, kwargs, fr):
             return VList([VInt(k) if isinstance(k, int) else VStr(k) for k in v.d])
         if isinstance(v, (VMap, VAbsList)):
             return VAbsList('list')          # keys of a symbolic dict (message text): contents are not tracked
+        if v is VNone and fr.spec:
+            return VSeq(I.path.fresh_seq('undef'), 'list')     # ill-typed sub-term of a clause: unspecified value
         raise OutOfSubset('%s(%r)' % (name, v))
     if name == 'int':
         v = args[0]
@@ -372,6 +374,8 @@ def call_extern(I, ref, args, kwargs, fr):
         v = args[0]
         if isinstance(v, VObj):
             return VObj(v.cls, dict(v.fields))
+        if isinstance(v, VSeq):
+            return VSeq(v.t, v.kind)            # a new object with the same contents
         raise OutOfSubset('copy of %r' % (v,))
     raise OutOfSubset('external function %s' % name)
 
